@@ -97,6 +97,7 @@ structure MS where
   seen : List RId
   np : Nat
   real : Bool
+  hq : HQ := []
 
 def cfgNat (cfg : List String) (key : String) (dflt : Nat) : Nat :=
   match cfg.filterMap (field (key ++ "=")) with
@@ -104,9 +105,8 @@ def cfgNat (cfg : List String) (key : String) (dflt : Nat) : Nat :=
   | [] => dflt
 
 def render (real : Bool) (op : Op) (o : Out) (po pi : List (Peer × RId)) : String :=
-  let pre :=
-    if real then "n" ++ toString o.pre.length
-    else listTok (o.pre.map toString)
+  let _ := real
+  let pre := listTok (o.pre.map toString)
   unwords [
     "ret=" ++ (match o.ret with | some r => toString r | none => "-"),
     "pre=" ++ pre,
@@ -118,6 +118,21 @@ def render (real : Bool) (op : Op) (o : Out) (po pi : List (Peer × RId)) : Stri
 /-- the Spec monitor's state: the implementation's trace so far -/
 structure SS where
   trace : Trace
+  hq : HQ := []
+
+/-- handler-level op `hfail p c k`: expected `hev` token = failure `k` for the oldest request -/
+def hfailExpect (q : HQ) : List String → Option String
+  | [p, c, k] => do
+    let p ← p.toNat?
+    let c ← c.toNat?
+    some (match hqHead q p c with
+      | some id => s!"hev={k}:{id}"
+      | none => "hev=none")
+  | _ => none
+
+def parsePre : List String → Option (List RId)
+  | _ :: pre :: _ => do parseList String.toNat? (← field "pre=" pre)
+  | _ => none
 
 def parseImpl (op : Op) : List String → Option Entry
   | [ret, _pre, evs, panic, po, pi] => do
@@ -139,6 +154,9 @@ def machine : Machine MS SS where
                 real := cfgNat cfg "real" 0 == 1 }
   specInit _ := { trace := [] }
   op m args :=
+    if args.head? == some "hfail" then
+      (m, (hfailExpect m.hq args.tail).getD "bad-op")
+    else
     match parseOp args with
     | none => (m, "bad-op")
     | some op =>
@@ -146,9 +164,21 @@ def machine : Machine MS SS where
       if !inContract m.s op then (m, "bad-op out-of-contract") else
       let r := step false m.s op
       let seen := seenAfter m.seen op
-      ({ m with s := r.1, seen := seen },
+      ({ m with s := r.1, seen := seen, hq := hqAfter m.hq op r.2 },
        render m.real op r.2 (samplePo m.np r.1) (samplePi m.np r.1 seen))
   spec ss args outs :=
+    if outs.head? == some "harness-panic" then (ss, "FAIL:harness_panic")
+    else if args.head? == some "hfail" then
+      -- handler contract: the failed negotiation is reported, for the oldest request, with its kind
+      match hfailExpect ss.hq args.tail, outs with
+      | some e, [o] =>
+        -- the handler holds nothing for this connection: out-of-contract (replay only), no judgement
+        if e == "hev=none" then (ss, "ok")
+        else if o == e then (ss, "ok")
+        else if o == "hev=none" then (ss, "FAIL:handler_no_outcome")
+        else (ss, "FAIL:handler_wrong_outcome")
+      | _, _ => (ss, "FAIL:unparsable")
+    else
     match parseOp args with
     | none => (ss, "FAIL:unparsable")
     | some op =>
@@ -156,7 +186,8 @@ def machine : Machine MS SS where
       | none => (ss, "FAIL:unparsable")
       | some e =>
         let t := ss.trace ++ [e]
-        ({ trace := t }, match specKey t with | none => "ok" | some k => "FAIL:" ++ k)
+        ({ trace := t, hq := hqAfter ss.hq op { e.out with pre := (parsePre outs).getD [] } },
+         match specKey t with | none => "ok" | some k => "FAIL:" ++ k)
 
 end Driver.C45
 
